@@ -251,12 +251,13 @@ pub fn send_assertions(m: &Model, w: &Wsdl) -> String {
         if op.output.is_some() {
             s += &format!(" assert_send_sync::<g::{base}OutputEnvelope>();");
         }
+        s += &format!(" assert_send_sync::<g::multi_ref::MultiRef<g::{base}InputEnvelope>>();");
         s += " }\n";
         if op.soap_action.as_ref().is_some_and(|a| !a.is_empty()) {
             s += &format!("fn f_{0}(req: g::{base}InputEnvelope) {{ assert_send(g::{method}(req, None)); }}\n", op.name.snake());
         }
         s += &format!(
-            "fn s_{0}(svc: std::sync::Arc<g::{svc}>, req: g::{base}InputEnvelope) {{ let rt = tokio::runtime::Builder::new_multi_thread().build().unwrap(); let _h = rt.spawn(async move {{ let _ = svc.{method}(req).await; }}); }}\n",
+            "fn s_{0}(svc: std::sync::Arc<g::{svc}>, req: g::{base}InputEnvelope) {{ let rt = tokio::runtime::Builder::new_multi_thread().build().unwrap(); let _h = rt.spawn(async move {{ svc.{method}(req).await }}); }}\n",
             op.name.snake()
         );
     }
@@ -635,6 +636,7 @@ pub fn run_into(ev: &mut Evidence, findings: &Findings, tier: Tier, cfg: &Cfg) {
     };
     let (mut profile, gates) = profile_for(findings, cfg.id);
     profile.wsdl = 2;
+    profile.restrict_bias = cfg.aspect == Aspect::Restrictions;
     profile.keyword_names = false;
     profile.max_files = 3;
     ev.extra.insert("gates_masked".into(), json!(gates));
